@@ -22,6 +22,8 @@ def _cell(cfg, a):
 
 
 def replay(rec):
+    if rec.get("rust"):
+        return replay_rust(rec)
     from pce500.memory import PCE500Memory
 
     config, op = rec["config"], rec["op"]
@@ -75,3 +77,99 @@ def replay(rec):
         comp = sum(m.read_byte(a2 + i) << (8 * i) for i in range(width))
         return multi != comp
     return after != want
+
+
+def _rs_cell(config, a):
+    """Plain-Python twin of membus_check.rs_cell (Rust MemoryImage cell map)."""
+    a24 = a & 0xFFFFFF
+    if 0x100000 <= a24 < 0x100100:
+        return ("imem", a24 - 0x100000, True)
+    if config == "pce500-card8k" and 0x40000 <= a24 < 0x42000:
+        return ("card", a24 - 0x40000, True)
+    if config == "pce500-card-absent" and 0x40000 <= a24 <= 0x4FFFF:
+        return ("void", a24 - 0x40000, False)
+    if config == "ram-overlay" and 0x80000 <= a24 < 0x88000:
+        return ("ram", a24 - 0x80000, True)
+    if config == "rom-overlay" and 0xC0000 <= a24 < 0xC1000:
+        return ("rom", a24 - 0xC0000, False)
+    phys = a24
+    if config == "pce500-mirror" and 0x80000 <= a24 <= 0xBFFFF:
+        phys = 0xB8000 + (a24 & 0x7FFF)
+    e = phys & 0xFFFFF
+    wr = True
+    if config.startswith("pce500"):
+        wr = not (e <= 0x3FFFF or 0xC0000 <= e <= 0xFFFFF)
+    return ("ext", e, wr)
+
+
+def replay_rust(rec):
+    from engines.rsym import build
+    from checks.membus_check import RS_CONFIGS
+
+    config, op, a, a2, v = rec["config"], rec["op"], rec["a"], rec["a2"], rec["v"]
+    S = rec["stores"]
+    mode, width = (1, {"load-word": 2, "load-long": 3}[op]) if op.startswith("load-") else (0, {"byte": 1, "word": 2, "long": 3}[op])
+
+    def init(kind, idx):
+        if kind == "void":
+            return 0
+        st = S[kind]
+        return st["entries"].get(str(idx), st["default"]) & 0xFF
+
+    ins = {500: RS_CONFIGS[config], 501: a, 502: 8 * width, 503: v, 504: a2, 509: 1, 510: mode}
+    for i in range(256):
+        ins[2000 + i] = init("imem", i)
+    # only the cells the accesses can touch need their initial contents
+    touched = set()
+    for base in (a, a2):
+        for i in range(3):
+            touched.add(_rs_cell(config, base + i)[:2])
+    # external cells: those of the spec's map plus every cell a base-address-resolved access could reach, plus the model's own entries
+    ext_idx = {idx for k, idx in touched if k == "ext"} | {int(k) for k in S["ext"]["entries"] if int(k) < 0x100000}
+    for base in (a, a2):
+        a24 = base & 0xFFFFFF
+        for i in range(3):
+            ext_idx |= {(a24 + i) & 0xFFFFF, ((a24 & 0xFFFFF) + i) & 0xFFFFF, 0xB8000 + ((a24 + i) & 0x7FFF), (0xB8000 + (a24 & 0x7FFF) + i) & 0xFFFFF}
+    if config == "pce500-mirror":
+        ext_idx = {e for e in ext_idx if not (0x80000 <= e < 0xB8000)}  # shadowed by the mirror: unreachable, cannot be seeded through the API
+    ext = [(idx, init("ext", idx)) for idx in sorted(ext_idx)]
+    ins[508] = len(ext)
+    for j, (idx, b) in enumerate(ext):
+        ins[3000 + 2 * j], ins[3001 + 2 * j] = idx, b
+    ram = [(idx, init("ram", idx)) for k, idx in touched if k == "ram"]
+    ins[507] = len(ram)
+    for j, (idx, b) in enumerate(ram):
+        ins[4000 + 2 * j], ins[4001 + 2 * j] = idx, b
+    mem = {}
+    for k, idx in touched:
+        if k == "card":
+            mem[0x03000000 + idx] = init("card", idx)
+        if k == "rom":
+            mem[0x06000000 + idx] = init("rom", idx)
+    r = build.run_replay("harness_mem", ins, mem, default=0)
+    out = r["out"]
+    cells = {}
+
+    def rd(addr):
+        k, idx, _w = _rs_cell(config, addr)
+        return cells.get((k, idx), init(k, idx))
+
+    mism = []
+    if mode == 0:
+        before = rd(a2)
+        for i in range(width):
+            k, idx, w = _rs_cell(config, a + i)
+            if w:
+                cells[(k, idx)] = (v >> (8 * i)) & 0xFF
+        after = rd(a2)
+        if out.get(10) != before:
+            mism.append(f"before {out.get(10)} want {before}")
+        if out.get(20) != after:
+            mism.append(f"after {out.get(20)} want {after}")
+    else:
+        want = sum(rd(a2 + i) << (8 * i) for i in range(width))
+        parts = [out.get(40 + i) for i in range(width)]
+        if out.get(30) != want or parts != [rd(a2 + i) for i in range(width)]:
+            mism.append(f"multi {out.get(30)} parts {parts} want {want:#x}")
+    print("rust membus", config, op, hex(a), hex(a2), hex(v), "mismatches", mism, "rc", r["rc"])
+    return bool(mism)
